@@ -8,7 +8,8 @@ import Inkayaku.Model.WF
 What the board layer has to provide (see `Proofs/WfStep.lean`):
 H1 (`unmake ∘ make` restores the visible position of a well-formed board for every generated move) is PROVED from C03;
 H2' (`BoardLaws.make_inv`: a generated move that passes `isValid` takes a board that is well-formed with clock budget
-`k+1` to one with budget `k`) is the only hypothesis.  H3 (everything the search calls depends on the visible position
+`k+1` to one with budget `k`) is the only hypothesis of this file; it is PROVED in `Proofs/WfStepProof.lean`
+(`Search.boardLaws`), so the Props files state everything without it.  H3 (everything the search calls depends on the visible position
 only) is proved in `Proofs/BoardCongr.lean`.
 
 The clock budget is consumed with the recursion fuel: a node searched with `fuel` needs `Inv fuel s.board`, every
